@@ -8,7 +8,7 @@ require (
 	github.com/scottyw/tetromino v0.0.0
 )
 
-require github.com/go-gl/gl v0.0.0-20190320180904-bf2b1f2f34d7 // indirect
+require github.com/go-gl/gl v0.0.0-20190320180904-bf2b1f2f34d7
 
 replace github.com/scottyw/tetromino => /repo
 
